@@ -171,6 +171,51 @@ fn judge_calls<T: Sc>(idx: usize, l: &MbLine, calls: &[(String, Vec<String>, i64
     }
 }
 
+/// Call sequences outside the universe TLC enumerates (three and ten model parameters, non-adjacent
+/// duplicates, arity mismatches beyond 2, six functions), each with exactly one defect - or none - so
+/// that the verdict follows from the rules of VPModelBuilder without enumeration.
+fn beyond_universe<T: Sc>(rep: &mut Report) {
+    let s = |v: &[&str]| v.iter().map(|x| x.to_string()).collect::<Vec<String>>();
+    let c = |op: &str, names: &[&str], n: i64| (op.to_string(), s(names), n);
+    let ten = ["p0", "p1", "p2", "p3", "p4", "p5", "p6", "p7", "p8", "p9"];
+    let rot: Vec<&str> = (0..10).map(|i| ten[(i * 3 + 4) % 10]).collect();
+    let mut ten_valid = vec![c("N", &ten, 0), c("F", &rot, 10)];
+    for n in rot.iter() {
+        ten_valid.push(c("D", &[n], 10));
+    }
+    ten_valid.push(c("X", &[], 0));
+    ten_valid.push(c("P", &[], 10));
+    let mut ten_bad_arity = vec![c("N", &ten, 0), c("F", &rot, 9), c("X", &[], 0), c("P", &[], 10)];
+    ten_bad_arity.insert(2, c("I", &[], 0));
+    let cases: Vec<(&str, Vec<(String, Vec<String>, i64)>, Option<&str>)> = vec![
+        ("model list with a non-adjacent duplicate", vec![c("N", &["a", "b", "a"], 0), c("F", &["a"], 1), c("D", &["a"], 1), c("F", &["b"], 1), c("D", &["b"], 1), c("X", &[], 0), c("P", &[], 3)], Some("DuplicateParameterNames")),
+        ("function list with a non-adjacent duplicate", vec![c("N", &["a", "b", "c"], 0), c("F", &["c"], 1), c("D", &["c"], 1), c("F", &["a", "b", "a"], 3), c("X", &[], 0), c("P", &[], 3)], Some("DuplicateParameterNames")),
+        ("closure of arity 2 for three names", vec![c("N", &["a", "b", "c"], 0), c("F", &["a", "b", "c"], 2), c("X", &[], 0), c("P", &[], 3)], Some("IncorrectParameterCount")),
+        ("valid three parameter model", vec![c("N", &["a", "b", "c"], 0), c("F", &["c", "a"], 2), c("D", &["c"], 2), c("D", &["a"], 2), c("F", &["b"], 1), c("D", &["b"], 1), c("I", &[], 0), c("X", &[], 0), c("P", &[], 3)], None),
+        ("third parameter unused", vec![c("N", &["a", "b", "c"], 0), c("F", &["a", "b"], 2), c("D", &["a"], 2), c("D", &["b"], 2), c("X", &[], 0), c("P", &[], 3)], Some("UnusedParameter")),
+        ("middle derivative missing", vec![c("N", &["a", "b", "c"], 0), c("F", &["a", "b", "c"], 3), c("D", &["a"], 3), c("D", &["c"], 3), c("X", &[], 0), c("P", &[], 3)], Some("MissingDerivative")),
+        ("derivative given twice (not adjacent)", vec![c("N", &["a", "b", "c"], 0), c("F", &["a", "b", "c"], 3), c("D", &["a"], 3), c("D", &["b"], 3), c("D", &["a"], 3), c("D", &["c"], 3), c("X", &[], 0), c("P", &[], 3)], Some("DuplicateDerivative")),
+        ("six functions", vec![c("N", &["a", "b"], 0), c("F", &["a"], 1), c("D", &["a"], 1), c("I", &[], 0), c("F", &["b", "a"], 2), c("D", &["a"], 2), c("D", &["b"], 2), c("F", &["b"], 1), c("D", &["b"], 1), c("I", &[], 0), c("F", &["a", "b"], 2), c("D", &["b"], 2), c("D", &["a"], 2), c("X", &[], 0), c("P", &[], 2)], None),
+        ("ten parameters in rotated order", ten_valid, None),
+        ("closure of arity 9 for ten names", ten_bad_arity, Some("IncorrectParameterCount")),
+    ];
+    for (what, calls, expect) in cases {
+        let r = catch_unwind(AssertUnwindSafe(|| replay::<T>(&calls)));
+        let det = |got: String| json!({"ctx": "call sequence beyond the enumerated universe", "case": what, "scalar": T::NAME, "calls": calls, "expected": expect, "got": got});
+        match (r, expect) {
+            (Err(_), _) => rep.violation("C15", det("panic".into())),
+            (Ok(Ok(panics)), None) => {
+                rep.ok("C15", 0.0);
+                rep.check("C17", panics.is_empty(), 0.0, || det(format!("built model panicked in {}", panics.join(", "))));
+            }
+            (Ok(Ok(_)), Some(_)) => rep.violation("C15", det("Ok".into())),
+            (Ok(Err(k)), Some(e)) => rep.check("C15", k == e, 0.0, || det(k.to_string())),
+            (Ok(Err(k)), None) => rep.violation("C15", det(k.to_string())),
+        }
+    }
+    rep.count("sequences_beyond_universe", 10);
+}
+
 pub fn run(path: &str) -> Report {
     let lines = crate::export::read_tagged(path, "VPMB");
     let reports: Vec<Report> = lines
@@ -210,5 +255,7 @@ pub fn run(path: &str) -> Report {
     for r in reports {
         total.merge(r);
     }
+    beyond_universe::<f64>(&mut total);
+    beyond_universe::<f32>(&mut total);
     total
 }
